@@ -191,6 +191,14 @@ func LoadProgram() (*Program, error) {
 		n++
 		c.FnName = fmt.Sprintf("dsvc_c%d", n)
 		text := c.Text
+		if isStmt && strings.Contains(c.Text, "==>") {
+			// implications inside ghostAssert(...) arguments
+			if g, err := ClauseToGo(c.Text); err == nil {
+				text = g
+			} else {
+				genErrs = append(genErrs, fmt.Sprintf("contracts:%d: %v", c.Line, err))
+			}
+		}
 		if !isStmt {
 			g, err := ClauseToGo(c.Text)
 			if err != nil {
@@ -335,6 +343,31 @@ func LoadProgram() (*Program, error) {
 				emit(lc.Decreases, ps, "int", false)
 			}
 		}
+		for _, name := range sortedKeys(c.Closures) {
+			cc := c.Closures[name]
+			lit := findClosureLit(info, fi.Decl, name)
+			if lit == nil {
+				genErrs = append(genErrs, fmt.Sprintf("contracts:%d: %s has no closure %s", c.Line, key, name))
+				continue
+			}
+			ps := localParams(lit.Body.Lbrace + 1)
+			for _, cl := range cc.Requires {
+				emit(cl, ps, "bool", false)
+			}
+			var res []string
+			if tsig, ok := info.TypeOf(lit).(*types.Signature); ok {
+				for i := 0; i < tsig.Results().Len(); i++ {
+					tsr := types.TypeString(tsig.Results().At(i).Type(), is.qual)
+					if tsig.Results().Len() == 1 {
+						res = append(res, "result "+tsr)
+					}
+					res = append(res, fmt.Sprintf("result%d %s", i, tsr))
+				}
+			}
+			for _, cl := range cc.Ensures {
+				emit(cl, append(append([]string{}, ps...), res...), "bool", false)
+			}
+		}
 		for _, h := range c.Hooks {
 			switch h.Where {
 			case "entry":
@@ -364,6 +397,26 @@ func LoadProgram() (*Program, error) {
 					}
 				}
 				emit(h.Stmts, localParams(pos), "", true)
+			case "precall":
+				call := findNthCall(info, fi.Decl, h.Callee, h.N)
+				if call == nil {
+					genErrs = append(genErrs, fmt.Sprintf("contracts:%d: %s has no call %d of %s", h.Stmts.Line, key, h.N, h.Callee))
+					continue
+				}
+				ps := localParams(call.Pos())
+				for i, a := range call.Args {
+					if tv, ok := info.Types[a]; ok && tv.Type != nil {
+						at := tv.Type
+						if b, ok := at.(*types.Basic); ok && b.Info()&types.IsUntyped != 0 {
+							at = types.Default(at)
+						}
+						if b, ok := at.(*types.Basic); ok && b.Kind() == types.UntypedNil {
+							continue
+						}
+						ps = append(ps, fmt.Sprintf("arg%d %s", i, types.TypeString(at, is.qual)))
+					}
+				}
+				emit(h.Stmts, ps, "", true)
 			case "call":
 				call := findNthCall(info, fi.Decl, h.Callee, h.N)
 				if call == nil {
@@ -468,6 +521,14 @@ func LoadProgram() (*Program, error) {
 		for _, h := range c.Hooks {
 			bind(h.Stmts)
 		}
+		for _, cc := range c.Closures {
+			for _, cl := range cc.Requires {
+				bind(cl)
+			}
+			for _, cl := range cc.Ensures {
+				bind(cl)
+			}
+		}
 	}
 	for _, ti := range cf.TypeInvs {
 		bind(ti.Clause)
@@ -512,4 +573,24 @@ func calleeName(ce *ast.CallExpr) string {
 		return f.Sel.Name
 	}
 	return ""
+}
+
+// findClosureLit: the function literal assigned (once) to the local named name inside fd.
+func findClosureLit(info *types.Info, fd *ast.FuncDecl, name string) *ast.FuncLit {
+	var found *ast.FuncLit
+	ast.Inspect(fd.Body, func(n ast.Node) bool {
+		as, ok := n.(*ast.AssignStmt)
+		if !ok {
+			return true
+		}
+		for i, l := range as.Lhs {
+			if id, ok := l.(*ast.Ident); ok && id.Name == name && i < len(as.Rhs) {
+				if lit, ok := as.Rhs[i].(*ast.FuncLit); ok && found == nil {
+					found = lit
+				}
+			}
+		}
+		return true
+	})
+	return found
 }
